@@ -47,6 +47,10 @@ FULL = [
     'Object.defineProperty(o2, "a", {get: function(){ return this.g }, set: function(v){ this.d = v }, '
     'enumerable: true, configurable: true})',
     'Object.defineProperty(o1, "c", {value: 8, writable: true, enumerable: true, configurable: true})',
+    # enumerability: hidden data property, hidden by default, made visible again
+    'Object.defineProperty(o1, "a", {value: 2, writable: true, enumerable: false, configurable: true})',
+    'Object.defineProperty(o1, "a", {value: 2, writable: true, enumerable: true, configurable: true})',
+    'Object.defineProperty(o2, "k", {value: 3, writable: true, configurable: true})',
     # re-link
     "Object.setPrototypeOf(o2, o1)",
     "Object.setPrototypeOf(o2, null)",
@@ -58,6 +62,9 @@ FULL = [
     "F1.prototype.k = 5",
     "F2.prototype = Object.create(F1.prototype)",
     "F2.prototype.a = 7",
+    "F1.prototype = 5",
+    'F2.prototype = "str"',
+    "F2.prototype = null",
     # copy
     "Object.assign(o3, o1)",
     "Object.assign(o1, o2)",
@@ -178,6 +185,7 @@ function one(r, o) {
     r.push(typeof o.m === "function" ? ids(o.m()) : "nofn");
   } catch (ex) { while (r.length < base + %(per)d) r.push("throw:" + ex.name) }
 }
+function isobj(v) { return (typeof v === "object" && v !== null) || typeof v === "function" }
 function obs(st) {
   var r = [st], base, x, y;
   one(r, o1); one(r, o2); one(r, o3);
@@ -185,9 +193,9 @@ function obs(st) {
   try {
     r.push(ids(F1.prototype));
     r.push(ids(F2.prototype));
-    r.push(ids(Object.getPrototypeOf(F1.prototype)));
-    r.push(ids(Object.getPrototypeOf(F2.prototype)));
-    r.push(rd(F1.prototype.constructor));
+    r.push(isobj(F1.prototype) ? ids(Object.getPrototypeOf(F1.prototype)) : "prim:" + typeof F1.prototype);
+    r.push(isobj(F2.prototype) ? ids(Object.getPrototypeOf(F2.prototype)) : "prim:" + typeof F2.prototype);
+    r.push(isobj(F1.prototype) ? rd(F1.prototype.constructor) : "prim:" + typeof F1.prototype);
     x = new F1();
     r.push(ids(Object.getPrototypeOf(x)));
     r.push(x instanceof F1);
@@ -284,6 +292,10 @@ FUNCTION_KINDS = [
     ("arrow_top_level", "var f = (a, b) => { BODY };"),
     ("arrow_in_method", "var holder = {mk: function () { return (a, b) => { BODY } }}; var f = holder.mk(9, 8, 6);"),
     ("arrow_in_constructor", "function C() { this.af = (a, b) => { BODY } } var inst = new C(9); var f = inst.af;"),
+    ("arrow_in_arrow_in_method", "var holder = {mk: function () { return () => (a, b) => { BODY } }}; var f = holder.mk(9, 8, 6)();"),
+    ("arrow_in_arrow_in_arrow_in_function", "function mk3() { return () => () => (a, b) => { BODY } } var f = mk3.call(w, 9, 8, 6)()();"),
+    ("arrow_in_callback_in_method", "var holder = {mk: function () { return [1].map(() => (a, b) => { BODY })[0] }}; var f = holder.mk(9, 8, 6);"),
+    ("getter_returning_arrow", "var holder = {get mk() { return (a, b) => { BODY } }}; var f = holder.mk;"),
     ("method_shorthand", "var holder = {f(a, b) { BODY }}; var f = holder.f;"),
     ("bound", "function f0(a, b) { BODY } var f = f0.bind(w);"),
 ]
